@@ -223,7 +223,20 @@ func classifyPanic(p interface{}) interface{} {
 	panic(engineAbort{trunc(fmt.Sprint("interpreter panic: ", p, " trail: ", trail()), 800)})
 }
 
+var curFr *frame
+
 func trail() string {
+	if curFr != nil {
+		var parts []string
+		for f := curFr; f != nil && len(parts) < 14; f = f.caller {
+			parts = append(parts, f.fn.String())
+		}
+		return "stack: " + strings.Join(parts, " < ")
+	}
+	return trailLog()
+}
+
+func trailLog() string {
 	n := len(CallTrail)
 	if n > 8 {
 		return strings.Join(CallTrail[n-8:], " > ")
